@@ -518,3 +518,45 @@ func writeReplay(verif, prop string, seed uint64, tier string, f *Found, min jso
 	}
 	return path
 }
+
+// selftestMain proves determinism on a large sample: the same runs executed
+// in many fresh processes under GOMAXPROCS 1/4/16 must print identical digests.
+func selftestMain(args []string) {
+	fs := flag.NewFlagSet("selftest", flag.ExitOnError)
+	prop := fs.String("prop", "", "property id")
+	seed := fs.Uint64("seed", 1, "seed")
+	procs := fs.Int("procs", 30, "fresh processes")
+	runs := fs.Int64("runs", 300, "runs per process")
+	fs.Parse(args)
+	self, _ := os.Executable()
+	outs := make([]string, *procs)
+	var wg sync.WaitGroup
+	sem := make(chan struct{}, 16)
+	for i := 0; i < *procs; i++ {
+		wg.Add(1)
+		go func(i int) {
+			defer wg.Done()
+			sem <- struct{}{}
+			defer func() { <-sem }()
+			cmd := exec.Command(self, "digest", "-prop", *prop, "-seed", fmt.Sprint(*seed), "-from", "0", "-to", fmt.Sprint(*runs))
+			cmd.Env = append(os.Environ(), "GOMAXPROCS="+[]string{"1", "4", "16"}[i%3])
+			o, err := cmd.Output()
+			if err != nil {
+				outs[i] = "ERROR " + err.Error()
+				return
+			}
+			outs[i] = string(o)
+		}(i)
+	}
+	wg.Wait()
+	bad := 0
+	for i := range outs {
+		if outs[i] != outs[0] || strings.HasPrefix(outs[i], "ERROR") {
+			bad++
+		}
+	}
+	fmt.Printf("selftest %s seed=%d: %d runs x %d fresh processes (GOMAXPROCS 1/4/16): %d differing\n", *prop, *seed, *runs, *procs, bad)
+	if bad > 0 {
+		os.Exit(2)
+	}
+}
